@@ -18,6 +18,7 @@ type resConn struct {
 	target Target
 	sni    string
 	clock  time.Duration // offset added to the logical clock
+	before func()        // runs right before this connection (e.g. the server rotates its ticket keys)
 }
 
 // runHistory drives connections over one shared cache against one server config.
@@ -25,6 +26,9 @@ func runHistory(conns []resConn, scfg *tls.Config, cache tls.ClientSessionCache)
 	var out []*peer.HS
 	for _, c := range conns {
 		off := c.clock
+		if c.before != nil {
+			c.before()
+		}
 		h := RunCase(c.target, GridCase{Server: scfg}, c.sni, func(cc *tls.Config) {
 			cc.ClientSessionCache = cache
 			cc.Time = func() time.Time { return peer.Now.Add(off) }
@@ -147,8 +151,40 @@ func TestC19(t *testing.T) {
 		// "the same server name": also in the spellings a caller may use for it (absolute
 		// with a trailing dot, upper case) - one spelling per history
 		name := []string{"example.test", "example.test.", "EXAMPLE.test", "www.example.test", "www.Example.Test."}[fnv32("C19name|"+j.t.Name+"|"+j.server)%5]
-		conns := []resConn{{j.t, name, 0}, {j.t, name, time.Minute}, {edited, name, 2 * time.Minute}, {j.t, name, 3 * time.Minute},
-			{inspected, name, 4 * time.Minute}, {both, name, 5 * time.Minute}, {j.t, name, 6 * time.Minute}}
+		conns := []resConn{{j.t, name, 0, nil}, {j.t, name, time.Minute, nil}, {edited, name, 2 * time.Minute, nil}, {j.t, name, 3 * time.Minute, nil},
+			{inspected, name, 4 * time.Minute, nil}, {both, name, 5 * time.Minute, nil}, {j.t, name, 6 * time.Minute, nil}}
+		// a caller that removes extended_master_secret from the extension list before the hello
+		// is built (a documented edit of uconn.Extensions): the cached session was established
+		// with it, so it must not be offered - or the server has to abort
+		noEMSAt := -1
+		if j.t.ID.Client != tls.HelloGolang.Client && j.server != "tls13" && j.server != "tls13-hrr" {
+			noEMS := j.t
+			noEMS.Style = StylePlain
+			noEMS.Pre = func(u *tls.UConn) error {
+				if err := u.BuildHandshakeStateWithoutSession(); err != nil { // the preset is applied now
+					return err
+				}
+				var keep []tls.TLSExtension
+				for _, e := range u.Extensions {
+					if _, ok := e.(*tls.ExtendedMasterSecretExtension); !ok {
+						keep = append(keep, e)
+					}
+				}
+				u.Extensions = keep
+				return nil
+			}
+			noEMSAt = len(conns)
+			conns = append(conns, resConn{target: noEMS, sni: name, clock: 6*time.Minute + 30*time.Second})
+		}
+		// ... then the server rotates its ticket keys: the session the next connection offers
+		// is declined, which must end in an ordinary full handshake (never in a broken one),
+		// and the connection after that resumes again
+		rotatedAt := len(conns)
+		conns = append(conns, resConn{target: j.t, sni: name, clock: 7 * time.Minute, before: func() {
+			var k [32]byte
+			copy(k[:], fmt.Sprintf("verif C19 rotated key %08x....", i))
+			scfg.SetSessionTicketKeys([][32]byte{k})
+		}}, resConn{target: j.t, sni: name, clock: 8 * time.Minute})
 		hs := runHistory(conns, scfg, cache)
 		mustResume := ((j.server == "tls12" || j.server == "tls11") && hasTicket(j.t)) || (strings.HasPrefix(j.server, "tls13") && hasPSK(j.t))
 		sig := map[string]string{"target": family(j.t.Name), "server": j.server}
@@ -181,7 +217,16 @@ func TestC19(t *testing.T) {
 					s := map[string]string{"kind": "didresume_disagree", "target": family(j.t.Name), "server": j.server}
 					r.Violation(s, fmt.Sprintf("%s connection %d: client DidResume=%v server=%v", j.t.Name, k, h.CState.DidResume, h.SState.DidResume), rep)
 				}
-				if mustResume && !h.CState.DidResume {
+				if k == noEMSAt {
+					r.Count("connections_with_ems_extension_removed", 1)
+				} else if k == rotatedAt {
+					if h.CState.DidResume {
+						s := map[string]string{"kind": "resumed_with_rotated_keys", "target": family(j.t.Name), "server": j.server}
+						r.Violation(s, fmt.Sprintf("%s connection %d: resumed although the server's ticket keys were replaced", j.t.Name, k), rep)
+					} else {
+						r.Count("declined_sessions_followed_by_a_full_handshake", 1)
+					}
+				} else if mustResume && !h.CState.DidResume {
 					s := map[string]string{"kind": "not_resumed", "target": family(j.t.Name), "server": j.server}
 					r.Violation(s, fmt.Sprintf("%s vs %s server: connection %d followed a successful one to the same name with the same parrot but did not resume", j.t.Name, j.server, k), rep)
 				}
@@ -235,7 +280,7 @@ func TestC19(t *testing.T) {
 			default:
 				clock += time.Second
 			}
-			conns = append(conns, resConn{pool[rg.Intn(len(pool))], names[rg.Intn(2)], clock})
+			conns = append(conns, resConn{pool[rg.Intn(len(pool))], names[rg.Intn(2)], clock, nil})
 		}
 		hs := runHistory(conns, scfg, cache)
 		ticketsByName := map[string][][]byte{} // session identities seen on the wire per name
